@@ -978,6 +978,10 @@ func (p Prop) exec(c *Case, faults []*ops.Fault) (*result, error) {
 	if err != nil {
 		return nil, err
 	}
+	if v := sr.HungViolation(); v != nil {
+		res.sr, res.viol = sr, v
+		return res, nil
+	}
 	res.sr, res.viol, res.failed = sr, r.viol, r.failed
 	if res.viol != nil {
 		return res, nil
